@@ -492,6 +492,14 @@ package types
 //@ spec func voteSignContent(chainID string, v *Vote) Content = voteBytes(chainID, v.Type, v.Height, v.Round, v.Timestamp, content(v.BlockID.Hash), v.BlockID.PartsHeader.Total, content(v.BlockID.PartsHeader.Hash))
 
 // Evidence built from two conflicting votes: votes ordered by block-id key, powers taken from the set.
+// Evidence of one offence has ONE form (and so one hash): the two votes in strictly ascending order of
+// their block-id keys. The reversed pair is not valid evidence.
+//@ func (dve *DuplicateVoteEvidence) ValidateBasic() (err error)
+//@   for C19
+//@   modifies nothing
+//@   ensures [nilRejected] dve == nil ==> err != nil
+//@   ensures [bothVotesPresentAndStrictlyOrdered] err == nil ==> dve.VoteA != nil && dve.VoteB != nil && strings.strCmp(keyOf(dve.VoteA.BlockID), keyOf(dve.VoteB.BlockID)) < 0
+
 // Duplicate-vote evidence on the wire: each field goes to the field of the same name, votes in order.
 //@ func (dve *DuplicateVoteEvidence) ToProto() (r *kproto.DuplicateVoteEvidence)
 //@   for C13 C19
